@@ -104,6 +104,15 @@ function checkMap ({ a, resp, code, file, v, res }) {
     const s = SM.lookup(d, st.gs.line, st.gs.col)
     if (!s || s.gl !== st.gs.line || s.gc !== st.gs.col) { v('statement-start-unmapped', st.type, `the ${st.type} at content ${st.gs.line}:${st.gs.col} has no mapping at its first token`); break } else if (s.ol < st.is || s.ol > st.ie) { v('statement-start-maps-outside-statement', st.type, `the ${st.type} at content ${st.gs.line}:${st.gs.col} maps to line ${s.ol}, statement spans ${st.is}-${st.ie}`); break }
   }
+  // 5. the prologue belongs to no statement of the input: a mapping on one of its tokens is a made-up position
+  if (a.erasure.prologue && a.erasure.prologue.ifStmt && a.erasure.prologue.ifStmt.span) {
+    const ps = outPos(a.erasure.prologue.ifStmt.span); const pe = outEnd(a.erasure.prologue.ifStmt.span)
+    for (const s of d.segments) {
+      if (s.src === undefined || !onToken(s)) continue
+      const p = { line: s.gl, col: s.gc }
+      if (le(ps, p) && lt(p, pe)) { v('prologue-token-mapped', 'prologue', `token of the injected prologue at content ${s.gl}:${s.gc} (${JSON.stringify(tout.at(s.gl, s.gc, 16))}) is mapped to input ${s.ol}:${s.oc}`); break }
+    }
+  }
   // 4. injected declarations map into the line span of their block
   for (const l of a.erasure.lets) {
     if (!l.span || !l.blockSpan || l.blockSpan.start === 0) continue
